@@ -1413,7 +1413,11 @@ func (m *RadioTap) DecodeFromBytes(data []byte, df gopacket.DecodeFeedback) erro
 			headlen += 2
 		}
 		if headlen%4 == 2 {
-			payload = append(payload[:headlen], payload[headlen+2:len(payload)]...)
+			// Build the unpadded frame in new memory: appending to payload[:headlen] would move
+			// the rest of the frame inside data, i.e. inside the caller's buffer under NoCopy.
+			unpadded := make([]byte, 0, len(payload)-2)
+			unpadded = append(unpadded, payload[:headlen]...)
+			payload = append(unpadded, payload[headlen+2:]...)
 		}
 	}
 
